@@ -180,7 +180,7 @@ pub fn run(thorough: bool) {
                 limits: Limits {
                     pool_size: pool,
                     time_budget: Duration::from_secs(if thorough { 1500 } else { 25 }),
-                    max_states: if thorough { 300_000 } else { 4_000 },
+                    max_states: if thorough { 300_000 } else { 6_000 },
                     ..Default::default()
                 },
             };
